@@ -4,7 +4,7 @@
    statement holds for any scalar structure S (reals, binary64) and for decks of
    any size. *)
 From Coq Require Import List NArith ZArith Bool String Ascii Lia.
-From T4V Require Import Base.Str Base.Scalar C17.Model C17.Proofs C17.ProofsStrings C17.ProofsSteps C17.ProofsClasses.
+From T4V Require Import Base.Str Base.Scalar C17.Model C17.Proofs C17.ProofsStrings C17.ProofsSteps C17.ProofsClasses C17.ProofsSteps2.
 Import ListNotations.
 Open Scope string_scope.
 
@@ -416,6 +416,28 @@ Theorem C17_arrives_options : forall T (S : Scalar T) trs,
      arrives S trs l k l1 k1 n -> arrives S trs l1 k1 l2 k2 m -> arrives S trs l k l2 k2 (n + m)).
 Proof. exact @p_C17_arrives_options. Qed.
 Print Assumptions C17_arrives_options.
+
+(* ... and TRCL=n (an existing TR card), FILL arrays of exactly size(ranges)
+   plain numbers, with or without an inline transformation behind them *)
+Theorem C17_arrives_options_more : forall T (S : Scalar T) trs,
+  (forall e p rest k n,
+     prefix "imp" (tsp e) = false -> contains_sub "fill" (tsp e) = false ->
+     contains_sub "lat" (tsp e) = false -> contains_sub "trcl" (tsp e) = true ->
+     numeric_lead p = true -> num_lit (tsp p) = true -> stops rest ->
+     lookup (tint p) trs = Some n ->
+     exists k', arrives S trs (e :: p :: rest) k rest k' 1) /\
+  (forall e first rs nums ps rest b k,
+     prefix "imp" (tsp e) = false -> contains_sub "fill" (tsp e) = true ->
+     has_colon first = true -> forallb has_colon rs = true ->
+     Forall (fun t => has_colon t = false) nums -> Forall (plain (T:=T)) nums ->
+     parse_ranges (map tsp (first :: rs)) = Ok b ->
+     Z.of_nat (List.length nums) = bounds_size b -> nums <> [] ->
+     forallb numeric_lead ps = true -> forallb (fun p => num_lit (tsp p)) ps = true ->
+     stops rest -> List.length ps <> 1%nat -> List.length ps <> 13%nat ->
+     tr_len_ok (List.length ps) = true ->
+     exists k', arrives S trs (e :: first :: rs ++ nums ++ ps ++ rest)%list k rest k' 1).
+Proof. exact @p_C17_arrives_options_more. Qed.
+Print Assumptions C17_arrives_options_more.
 
 (* ---------------- the open finding classes, characterised ---------------- *)
 
